@@ -1325,6 +1325,11 @@ def triggers(lib, target):
     def inside(d, e):
         return len(d) > len(e) and d[:len(e)] == e
 
+    def same_host(d, b):
+        """does class `d` live inside a (non-package) class that encloses the local class `b`?  All local
+        classes of such a host, at every depth, are instantiated in place when the host is."""
+        return any(inside(d, b[:j]) and cls[b[:j]]["kind"] != "package" for j in range(1, len(b)))
+
     def inh_path(c, decl):
         """classes from c down to the direct deriver of decl along extends clauses (None: not a base)"""
         for b, _ in orc.ext_list(c):
@@ -1340,7 +1345,7 @@ def triggers(lib, target):
         (its deriver lives inside the class that declares `decl`, whose copy holds the marks)"""
         if decl == inst_class or not is_local(decl):
             return False
-        return any(inside(d, decl[:-1]) for d in (inh_path(inst_class, decl) or []))
+        return any(same_host(d, decl) for d in (inh_path(inst_class, decl) or []))
 
     # base class names are searched in the original classes (own local classes only, at every level)
     for cp_, c_ in cls.items():
@@ -1351,7 +1356,7 @@ def triggers(lib, target):
     rebased = set()           # local classes used as a base class from inside their declaring class
     for d_ in all_long:
         for b_, _ in orc.ext_list(d_):
-            if is_local(b_) and inside(d_, b_[:-1]):
+            if is_local(b_) and same_host(d_, b_):
                 rebased.add(b_)
 
     def pairs(c):
@@ -1442,7 +1447,7 @@ def triggers(lib, target):
                             # (already rewritten in place) local class is copied, not its instance
                             out.add("RE"); sub.add("RE4")
                     if k["type"] not in BUILTIN and (k["mods"] or k["value"] is not None) and any(
-                            b == cp and is_local(b) and inside(d, b[:-1]) for d, b in pairs(cpath)):
+                            b == cp and is_local(b) and same_host(d, b) for d, b in pairs(cpath)):
                         out.add("RE"); sub.add("RE3")      # scopes noted at the first instantiation of the local base class
                 for n in cdef["classes"]:
                     if n["kind"] != "package" and n["alias"] is None:
